@@ -14,7 +14,7 @@ def read_bytes(path):
         return f.read()
 
 
-def failed_dump(sym, fmt, position, attr, rule, maxlen, k, preexisting, any_value=False, linked=False, name_len=12):
+def failed_dump(sym, fmt, position, attr, rule, maxlen, k, preexisting, any_value=False, linked=False, name_len=12, symlink=False):
     """a valid object was written to `path`; then one field (anywhere) becomes invalid and dump(path) is called again.
     any_value: the field gets an arbitrary value, inside or outside its documented domain - whatever the reason a dump is
     refused for (also a writer that is stricter than the documented rule), the destination must be left alone"""
@@ -22,7 +22,12 @@ def failed_dump(sym, fmt, position, attr, rule, maxlen, k, preexisting, any_valu
     d = sym.scratch_dir()
     # name_len: the destination's own name is up to NAME_MAX (255) characters long - no sibling with a longer name can be created next to it
     path = os.path.join(d, "metadata.out" if name_len == 12 else "m" * (name_len - 4) + ".out")
-    if preexisting:
+    if preexisting and symlink:
+        # the destination is a symbolic link to the last good copy (a 'latest' link): a refused dump leaves link and target alone
+        real = os.path.join(d, "last-good.copy")
+        top.dump(real)
+        os.symlink("last-good.copy", path)
+    elif preexisting:
         top.dump(path)
         if linked:
             os.link(path, os.path.join(d, "hardlinked.copy"))          # compose tooling hardlinks metadata into other trees
@@ -48,6 +53,8 @@ def failed_dump(sym, fmt, position, attr, rule, maxlen, k, preexisting, any_valu
     if preexisting:
         sym.check("previous-file-intact", after == before)
         sym.check("previous-file-not-empty", after is not None and len(after) > 0)
+        if symlink:
+            sym.check("still-the-same-link", os.path.islink(path) and os.readlink(path) == "last-good.copy")
         if linked:
             sym.check("hardlinked-copy-intact", read_bytes(os.path.join(d, "hardlinked.copy")) == before)
     else:
@@ -108,6 +115,8 @@ def jobs(tier, seed):
                                                                 "preexisting": pre, "linked": bool(pre and (big or (i + len(position) + seed) % 3 == 1))}})
                 if (i + len(position) + len(out) + seed) % 4 == 0:
                     out[-1]["params"]["name_len"] = [255, 250, 246, 241][(i + len(out)) % 4]
+                elif pre and not out[-1]["params"]["linked"] and (i + len(out) + seed) % 3 == 0:
+                    out[-1]["params"]["symlink"] = True
     def add_any(fmt, position, fields):
         for i, (attr, rule, maxlen) in enumerate(fields):
             if big or (i + seed) % 2 == 0 or fmt == "discinfo":
@@ -158,6 +167,7 @@ META = {
         "any-value jobs: the same positions with an arbitrary value (strings up to 6 characters, integers, booleans, None, containers), "
         "inside or outside the documented domain: every refusal, for whatever reason, must leave the destination alone",
         "in a quarter of the jobs the destination's file name is 241-255 characters long (NAME_MAX and just below: no longer-named sibling can be created)",
+        "in some jobs the existing destination is a symbolic link to the last good copy",
         "treeinfo (its own dump method): release, base product, tree, media and variant fields of the C06 base tree",
     ],
 }
